@@ -5,15 +5,16 @@
    observations the specification allows for that call in the current model state (R4).            *)
 EXTENDS RegTable, Json, IOUtils
 TraceLog == ndJsonDeserialize(IOEnv.TRACE)
-VARIABLE l
+VARIABLES l, dirty    \* dirty: storage was modified out of band / by the unchecked variant since the last sanitise
 e == TraceLog[l]
-TInitS == Init /\ l = 1
+TInitS == Init /\ l = 1 /\ dirty = FALSE
 Restart == d' = <<>> /\ inited' = FALSE /\ mem' = <<>> /\ touched' = {} /\ ev' = [op |-> "@", a |-> <<>>, o |-> <<>>, alts |-> {<<>>}]
 V(ty, w4) == LastN(w4, Size(ty))
 Step == CASE e.op = "@" -> Restart
           [] e.op = "tinit" -> TInit(Unflatten(e.a))
           [] e.op = "set" -> Set(e.a[1], e.a[3], V(e.a[3], SubSeq(e.a, 4, 7)), e.a[2])
           [] e.op = "get" -> Get(e.a[1])
+          [] e.op = "sweep16" -> Sweep16(e.a[1], e.a[2])
           [] e.op = "bitset" -> Bit(e.a[1], e.a[2], V(e.a[2], SubSeq(e.a, 3, 6)), TRUE)
           [] e.op = "bitclr" -> Bit(e.a[1], e.a[2], V(e.a[2], SubSeq(e.a, 3, 6)), FALSE)
           [] e.op = "bwrite" -> BlockWrite(e.a[1], Drop(e.a, 2))
@@ -22,12 +23,13 @@ Step == CASE e.op = "@" -> Restart
           [] e.op = "sanitise" -> Sanitise
           [] e.op = "corrupt" -> Corrupt(e.a[1], e.a[2])
           [] OTHER -> FALSE
+Unchecked(x) == x.op = "corrupt" \/ (x.op \in {"set", "sweep16"} /\ x.a[2] = 1)       \* out-of-band or unchecked modification
 TNext == /\ l <= Len(TraceLog) /\ l' = l + 1 /\ Step
+         /\ dirty' = (IF e.op \in {"sanitise", "tinit", "@"} THEN FALSE ELSE dirty \/ Unchecked(e))
          /\ (e.op # "@" => e.o \in ev'.alts /\ e.asan = 0)
-TSpec == TInitS /\ [][TNext]_<<vars, ev, l>>
+TSpec == TInitS /\ [][TNext]_<<vars, ev, l, dirty>>
 (* constraints hold in every state reached by checked operations; corruption is flagged by the driver *)
-Dirty == \E k \in 1..(l - 1) : TraceLog[k].op = "corrupt" /\ \A j \in (k + 1)..(l - 1) : TraceLog[j].op \notin {"sanitise", "tinit", "@"}
-ConstraintInv == (inited /\ ~Dirty) => ConstrainedOK(d, mem)
+ConstraintInv == (inited /\ ~dirty) => ConstrainedOK(d, mem)
 Accepted == LET n == TLCGet("stats").diameter - 1
             IN PrintT("L;;" \o ToString(n)) /\ n = Len(TraceLog)
 =============================================================================
